@@ -406,7 +406,26 @@ func (fb *fnBounds) postFacts(in ssa.Instruction) []constraint {
 	case *ssa.Call:
 		callee := t.Call.StaticCallee()
 		if callee == nil {
-			return nil
+			// one of a known set of in-module functions: the object invariants hold again for every
+			// object handed to it (they are properties of the type, re-established by every function)
+			if _, ok := bp.dynTargets(t); ok {
+				for _, a := range t.Call.Args {
+					pt, ok := a.Type().Underlying().(*types.Pointer)
+					if !ok {
+						continue
+					}
+					n, _ := namedStruct(pt.Elem())
+					if n == nil {
+						continue
+					}
+					for _, c := range bp.invCandidates(n) {
+						if bp.cand[c.key()] {
+							cs = append(cs, fb.invConstraint(c, a, t, true))
+						}
+					}
+				}
+			}
+			return cs
 		}
 		if !bp.p.InModule(callee) {
 			switch callee.String() {
@@ -827,6 +846,7 @@ func (bp *boundsProver) houdiniGlobal(fns []*ssa.Function) {
 						continue // unreachable per engine-1
 					}
 					isRet := false
+					dynCall := false
 					var call *ssa.Call
 					switch t := in.(type) {
 					case *ssa.Return:
@@ -834,9 +854,20 @@ func (bp *boundsProver) houdiniGlobal(fns []*ssa.Function) {
 					case *ssa.Call:
 						if callee := t.Call.StaticCallee(); callee != nil && bp.p.InModule(callee) {
 							call = t
+						} else if callee == nil {
+							if ts, ok := bp.dynTargets(t); ok {
+								// the targets assume the object invariants (checked below, like at a static
+								// call); their own preconditions cannot be established at a dynamic site
+								dynCall = true
+								for _, tg := range ts {
+									for _, c := range bp.preCandidates(tg) {
+										drop(c.key(), fmt.Sprintf("callee reachable through the dynamic call at %s", bp.p.pos(t.Pos())))
+									}
+								}
+							}
 						}
 					}
-					if !isRet && call == nil {
+					if !isRet && call == nil && !dynCall {
 						continue
 					}
 					// object invariants hold at every call boundary and return for the objects in scope
